@@ -50,6 +50,9 @@ func NewHTTPHandler(to *url.URL, reverseProxy *httputil.ReverseProxy, headerInje
 
 func (f *HTTPHandler) rewriteFunc(r *httputil.ProxyRequest) {
 	r.SetURL(f.To)
+	// the proxy does not interpret the query: forward it as the client sent it
+	// (ReverseProxy drops parameters it cannot parse before calling Rewrite)
+	r.Out.URL.RawQuery = r.In.URL.RawQuery
 	r.Out.Header["X-Forwarded-For"] = r.In.Header["X-Forwarded-For"]
 	r.SetXForwarded()
 
